@@ -15,4 +15,5 @@ CONSTANTS
 INVARIANT TypeOK
 PROPERTY EventuallyJudgedX
 PROPERTY EventuallyQuiescentX
+PROPERTY EventuallyCleaned
 CHECK_DEADLOCK FALSE
